@@ -28,7 +28,7 @@ ASSUMPTIONS = [
     "item fields of typed scalar lists/dicts are not 'fields of a configuration'; only schema fields carry the flag",
 ]
 REQUIRED = ["sensitive:virtual", "mask:none", "mask:empty", "mask:one-char", "mask:multi", "out:tree", "out:document", "sensitive:nested", "sensitive:list-item",
-            "sensitive:configtype", "sensitive:empty-value", "sensitive:list-of-configs", "sensitive:set-after-declaration"]
+            "sensitive:configtype", "sensitive:empty-value", "sensitive:list-of-configs", "sensitive:set-after-declaration", "sensitive-value-embedded-in-plain-field"]
 LEVEL_TEXT = (
     "Generated schemas/values/masks with a model-computed expected tree compared structurally with the masked "
     "rendering (tree and decoded document); kills mutants whose recursion drops the mask, repeats a multi-character "
@@ -191,6 +191,16 @@ def run_case(case, R):
                     break
                 except Exception:
                     continue
+        # a non-sensitive text field may well CONTAIN the sensitive value of a sibling (a DSN, a note): it is rendered as it is
+        try:
+            if isinstance(cfg.zzct.token, str) and cfg.zzct.token:
+                cfg.zzct["full_path"] = "dsn://user:%s@host/db" % cfg.zzct.token
+                R.label("sensitive-value-embedded-in-plain-field")
+            for item in cfg.zzitems or []:
+                if isinstance(item.secret, str) and item.secret:
+                    item.label = item.secret
+        except Exception:
+            pass
         c02._sanitize(world, cfg)
         # virtual fields echo sibling values (bytes, digests, typed proxies): not plain data, so virtual output is only
         # exercised for tree output, never for documents
